@@ -335,7 +335,7 @@ def honest_expected(w, alg, label, signer, name, how):
 # --------------------------------------------------------------------------
 # server: AuthHandler._parse_userauth_request, publickey branch
 
-AUTH_SUCCESSFUL, AUTH_FAILED = 0, 2
+AUTH_SUCCESSFUL, AUTH_PARTIALLY_SUCCESSFUL, AUTH_FAILED = 0, 1, 2
 
 
 def make_server_class(w):
@@ -346,9 +346,13 @@ def make_server_class(w):
             self.cb_failed = cb_failed
             self.keys = []
 
+        partial = False         # answer AUTH_PARTIALLY_SUCCESSFUL (publickey is one of several factors)
+
         def check_auth_publickey(self, username, key):
             self.keys.append(key)
-            return AUTH_FAILED if self.cb_failed else AUTH_SUCCESSFUL
+            if self.cb_failed:
+                return AUTH_FAILED
+            return AUTH_PARTIALLY_SUCCESSFUL if self.partial else AUTH_SUCCESSFUL
 
         def get_allowed_auths(self, username):
             return "publickey"
@@ -369,13 +373,14 @@ def session_blob(w, sid, user, alg, keyblob):
     return m.asbytes()
 
 
-def drive_server(w, Srv, t, declared, keyblob, cb_failed, attached, sigbytes, prior=()):
+def drive_server(w, Srv, t, declared, keyblob, cb_failed, attached, sigbytes, prior=(), partial=False):
     """Returns canonical outcome (as Model run_server) of the LAST request.  `prior`: earlier publickey
     requests (declared, keyblob, attached, sigbytes) delivered to the SAME AuthHandler first (a key probe
     answered with PK_OK, a rejected signed request, ...)."""
     import paramiko.auth_handler as ah
     sent = []
     srv = Srv(cb_failed)
+    srv.partial = partial
     t.server_mode = True
     t.server_object = srv
     t.session_id = b"session-id-c07"
@@ -424,6 +429,13 @@ def drive_server(w, Srv, t, declared, keyblob, cb_failed, attached, sigbytes, pr
     if types[:1] == [52]:
         return [0] + key_canon(w, srv.keys[-1]), srv, h
     if types[:1] == [51]:
+        fm = w.Message(sent[0][1:])
+        fm.get_text()
+        if fm.get_boolean():
+            # USERAUTH_FAILURE with partial_success=True: the public-key factor was ACCEPTED (the callback's
+            # AUTH_PARTIALLY_SUCCESSFUL stands), exactly like PkVerified in the model
+            srv.partial_granted = True
+            return [0] + key_canon(w, srv.keys[-1]), srv, h
         return ([2] if cb_failed and srv.keys else [4]), srv, h
     return [998] + types, srv, h
 
@@ -464,18 +476,21 @@ def server_cases(ctx, w):
                         continue
                     data = session_blob(w, b"session-id-c07", "user", declared, blob)
                     sigb, valid = make_sig(w, signer, name, how, data)
-                    impl, srv, h = drive_server(w, Srv, t, declared, blob, cbf, att, sigb)
+                    part = (vi % 3 == 1)        # the application answers AUTH_PARTIALLY_SUCCESSFUL
+                    impl, srv, h = drive_server(w, Srv, t, declared, blob, cbf, att, sigb, partial=part)
                     case = {"disabled_pubkeys": dis, "declared": declared, "blob": label, "sig_name": name,
-                            "made_with": how, "cb_failed": cbf, "sig_attached": att}
+                            "made_with": how, "cb_failed": cbf, "sig_attached": att, "callback_partial": part}
                     cases.append((case, ((([list(x.encode()) for x in default]),
                                           [list(x.encode()) for x in dis]),
                                          list(declared.encode()), (list(bt), mc), (cbf, att),
                                          list(name.encode()), valid), impl))
-                    ctx.count(("server", tuple(dis), declared, label, name, how, cbf, att), nontrivial=True,
+                    ctx.count(("server", tuple(dis), declared, label, name, how, cbf, att, part), nontrivial=True,
                               kind={0: "server-verified", 1: "server-disconnect", 2: "server-refused",
                                     3: "server-probe-ok", 4: "server-sig-rejected"}.get(impl[0], "server-other"))
                     base = declared.replace(CERT, "")
-                    granted = h.authenticated
+                    granted = h.authenticated or getattr(srv, "partial_granted", False)
+                    granted_txt = "USERAUTH_SUCCESS" if h.authenticated else \
+                        "USERAUTH_FAILURE with partial_success=True (public-key factor accepted)"
                     if impl[0] == 0 or granted:
                         if name != base:
                             ctx.fail("userauth-accepts-sha1-downgrade" if sha1_downgrade(name, base) else
@@ -483,28 +498,28 @@ def server_cases(ctx, w):
                                      "server accepted a publickey signature whose algorithm (%r) is not the one "
                                      "declared in the request (%r)" % (name, declared),
                                      case=dict(case, side="server"), expected="USERAUTH_FAILURE",
-                                     observed="USERAUTH_SUCCESS")
+                                     observed=granted_txt)
                         if base not in enabled:
                             ctx.fail("userauth-accepts-disabled-algorithm",
                                      "server accepted a publickey request declaring a disabled algorithm",
                                      case=dict(case, side="server"), expected="disconnect",
-                                     observed="USERAUTH_SUCCESS")
+                                     observed=granted_txt)
                         if name not in enabled:
                             ctx.fail("userauth-accepts-disabled-signature-algorithm",
                                      "server accepted a signature made with a disabled algorithm (%r)" % name,
                                      case=dict(case, side="server"), expected="USERAUTH_FAILURE",
-                                     observed="USERAUTH_SUCCESS")
+                                     observed=granted_txt)
                         if valid and valid != [rfc_hash(w, signer, name)]:
                             ctx.fail("userauth-wrong-hash",
                                      "server accepted a signature that only verifies under another hash than the "
                                      "one its algorithm name stands for",
                                      case=dict(case, side="server"), expected="USERAUTH_FAILURE",
-                                     observed="USERAUTH_SUCCESS")
+                                     observed=granted_txt)
                         if not valid or cbf or not att:
                             ctx.fail("userauth-accepts-without-proof",
                                      "server granted publickey auth without a valid signature / approval",
                                      case=dict(case, side="server"), expected="USERAUTH_FAILURE",
-                                     observed="USERAUTH_SUCCESS")
+                                     observed=granted_txt)
                     if base not in enabled and (srv.keys or impl[0] != 1):
                         ctx.fail("userauth-disabled-algorithm-not-disconnected",
                                  "a request declaring a disabled / unknown algorithm reached the callback",
@@ -624,6 +639,80 @@ def prefs_cases(ctx, w, n):
                 ctx.fail("preferred-pubkeys-contains-disabled", "preferred_pubkeys lists a disabled algorithm",
                          case=cases[-1][0], observed=pp)
     return cases
+
+
+# --------------------------------------------------------------------------
+# the client's host key algorithm choice: real Transport._parse_kex_init on crafted server KEXINITs
+
+
+def kexinit_payload(lists):
+    import struct
+    out = b"\x07" * 16
+    for l in list(lists) + [[], []]:
+        body = ",".join(l).encode()
+        out += struct.pack(">I", len(body)) + body
+    return out + b"\x00" + struct.pack(">I", 0)
+
+
+def negotiate_cases(ctx, w, n):
+    """(disabled keys, _preferred_keys, server's host key list) -> host_key_type or IncompatiblePeer"""
+    p = w.paramiko
+    T = p.Transport
+    from _loop import LoopSocket
+    default = list(T._preferred_keys)
+    rsa3 = ["rsa-sha2-512", "rsa-sha2-256", "ssh-rsa"]
+    rows = []
+    enc = lambda l: [list(x.encode()) for x in l]  # noqa
+    for i in range(n):
+        rng = ctx.rng
+        pk = default if i % 3 != 2 else rng.choice([rsa3, ["ssh-ed25519"], ["ssh-rsa"]])   # connect(hostkey=) lists
+        dis = rng.sample(default, rng.randrange(0, 5)) if i % 4 else rng.choice([["ssh-rsa"], rsa3[:2], rsa3])
+        mode = i % 5
+        if mode == 0:
+            sl = list(dis) or ["ssh-dss"]                         # ONLY disabled algorithms (a legacy / hostile server)
+        elif mode == 1:
+            sl = list(dis) + rng.sample(default, 2)               # disabled ones first
+        elif mode == 2:
+            sl = [x + CERT for x in rng.sample(default, 2)] + ["ssh-dss"]
+        elif mode == 3:
+            sl = [x + CERT for x in dis] + list(dis)              # cert forms of disabled algorithms
+        else:
+            sl = rng.sample(default + ["ssh-dss", "x509v3-sign-rsa"], rng.randrange(0, 6))
+        a, b = LoopSocket(), LoopSocket()
+        a.link(b)
+        t = T(a, disabled_algorithms={"keys": list(dis)})
+        t._preferred_keys = tuple(pk)
+        lists = [list(t.preferred_kex), sl, list(t.preferred_ciphers), list(t.preferred_ciphers),
+                 list(t.preferred_macs), list(t.preferred_macs), ["none"], ["none"]]
+        m = w.Message(kexinit_payload(lists))
+        m.seqno = 0
+        try:
+            t._parse_kex_init(m)
+            impl = [0] + list(t.host_key_type.encode())
+            got = t.host_key_type
+        except p.ssh_exception.IncompatiblePeer:
+            impl, got = [2], None
+        except Exception as e:  # noqa
+            impl, got = [exn_code(e, w)], repr(e)
+        case = {"side": "client-negotiation", "preferred_keys": pk, "disabled_keys": dis, "server_offers": sl,
+                "host_key_type": got}
+        rows.append((case, (enc(pk), enc(dis), enc(sl)), impl))
+        ctx.count(("negotiate", tuple(pk), tuple(dis), tuple(sl)), nontrivial=True, kind="client-negotiate-mode%d" % mode)
+        if impl[0] == 0:
+            base = got.replace(CERT, "")
+            if base in dis or base not in pk or got not in sl:
+                ctx.fail("negotiated-disabled-host-key-algorithm",
+                         "the client agreed on host key algorithm %r which it has disabled / does not prefer / the "
+                         "server did not offer (Transport._verify_key then demands exactly this algorithm)" % got,
+                         case=case, expected="IncompatiblePeer or an enabled algorithm", observed=got)
+        elif impl[0] == 2 and any(x in sl for x in t.preferred_keys):
+            ctx.fail("negotiation-refused-common-algorithm", "IncompatiblePeer although a common enabled host key "
+                     "algorithm exists", case=case, observed="IncompatiblePeer")
+        try:
+            t.close()
+        except Exception:
+            pass
+    return rows
 
 
 # --------------------------------------------------------------------------
@@ -771,6 +860,48 @@ def loop_oracle(ctx, w):
             elif not forced and (st != "ok" or not alive):
                 ctx.fail("rekey-honest-rejected", "an honest re-key failed", case=case, expected="completed",
                          observed=repr(v))
+        finally:
+            finish(tc, ts)
+
+    # ---- a legacy / hostile server: offers ONLY an algorithm the client disabled, ignores the client's list ----
+    class DeafServer(p.Transport):
+        only = "ssh-rsa"
+
+        def _parse_kex_init(self, m):
+            raw = bytes(m.asbytes())
+            mm = w.Message(raw)
+            mm.get_bytes(16)
+            lists = [mm.get_list() for _ in range(10)]
+            lists[1] = [self.only]                      # pretend the client offered what we want
+            m2 = w.Message(kexinit_payload(lists[:8]))
+            m2.seqno = getattr(m, "seqno", 0)
+            r = p.Transport._parse_kex_init(self, m2)
+            self.remote_kex_init = b"\x14" + raw        # the exchange hash covers what the client really sent
+            return r
+
+    from _loop import LoopSocket as _LS
+    for disk, only in ((["ssh-rsa"], "ssh-rsa"), (["rsa-sha2-512", "rsa-sha2-256"], "rsa-sha2-512"), ([], "ssh-rsa")):
+        a, b = _LS(), _LS()
+        a.link(b)
+        tc = p.Transport(a, disabled_algorithms={"keys": disk})
+        ts = DeafServer(b)
+        ts.only = only
+        ts._preferred_keys = (only,)
+        ts.add_server_key(w.rsa)
+        try:
+            st, v = handshake(w, tc, ts, Srv)
+            case = {"side": "client-handshake", "client_disabled_keys": disk, "server_offers_only": only,
+                    "negotiated": tc.host_key_type}
+            ctx.count(("loop-deaf", tuple(disk), only), nontrivial=True, kind="loopback-deaf-server")
+            if st == "hang":
+                ctx.fail("handshake-hang", "loopback handshake did not finish", case=case)
+            elif st == "ok" and only in disk:
+                ctx.fail("negotiated-disabled-host-key-algorithm",
+                         "handshake completed with host key algorithm %r although the client disabled it"
+                         % tc.host_key_type, case=case, expected="IncompatiblePeer", observed="handshake completed")
+            elif st != "ok" and only not in disk:
+                ctx.fail("handshake-honest-rejected", "handshake with a server offering one enabled algorithm failed",
+                         case=case, expected="completed", observed=repr(v))
         finally:
             finish(tc, ts)
 
@@ -925,7 +1056,7 @@ def run(ctx):
                 "(RSA: 6 HASHES names, 3 foreign; EC: 5; Ed: 3) x how the bytes were really made (RSA: SHA-1, "
                 "SHA-256, SHA-512, other data; else real / other data); server = the same x 6 disabled-pubkeys "
                 "sets (first set fully enumerated in the quick tier, the others sampled at 15 %; thorough: all) "
-                "with callback refusal / key probe riding along; two-request histories on one AuthHandler (key probe or rejected signed request naming one algorithm, then a signed request naming another; second decision compared with a fresh handler's); every client case repeated with the transport already holding the same / another host key (re-key); preference lists on generated configurations; "
+                "with callback refusal / key probe riding along; two-request histories on one AuthHandler (key probe or rejected signed request naming one algorithm, then a signed request naming another; second decision compared with a fresh handler's); every client case repeated with the transport already holding the same / another host key (re-key); the client's host key choice on the real _parse_kex_init over generated (preferred, disabled, server offer) incl. servers offering only disabled algorithms; application callbacks answering AUTH_PARTIALLY_SUCCESSFUL; preference lists on generated configurations; "
                 "loopback handshakes / authentications against a peer signing with another algorithm.  A case "
                 "is non-trivial when distinct; every case reaches a key-class / name / hash branch.")
     ctx.trusted += ["model coq/Model/C07.v is hand-written; tied to rsakey.py / ecdsakey.py / ed25519key.py / "
@@ -949,6 +1080,7 @@ def run(ctx):
     ctx.log("server histories (probe / rejected request, then signed request): %d" % nh)
     pc = prefs_cases(ctx, w, 300 if ctx.thorough else 60)
     nc = loop_oracle(ctx, w)
+    nc += negotiate_cases(ctx, w, 400 if ctx.thorough else 80)
 
     # ---- model comparisons ----
     bad = model(ctx, "run_client", "(name * (name * Z) * name * list Z)", cc, coq_client)
@@ -1027,7 +1159,8 @@ def replay(ctx, rep):
         t = new_transport(w, {"pubkeys": case["disabled_pubkeys"]})
         data = session_blob(w, b"session-id-c07", "user", case["declared"], blob)
         sigb, valid = make_sig(w, signer, case["sig_name"], case["made_with"], data)
-        impl, srv, h = drive_server(w, Srv, t, case["declared"], blob, case["cb_failed"], case["sig_attached"], sigb)
+        impl, srv, h = drive_server(w, Srv, t, case["declared"], blob, case["cb_failed"], case["sig_attached"], sigb,
+                                    partial=case.get("callback_partial", False))
         ctx.log("replay server:", case, "->", impl)
         base = case["declared"].replace(CERT, "")
         enabled = [x for x in w.paramiko.Transport._preferred_pubkeys if x not in case["disabled_pubkeys"]]
